@@ -98,7 +98,7 @@ INV_COMMON = 'obeys_key_model::<uri::Rsync>(), distinct_uris(elements)'
 
 def loop_ghost(which, hit, idx, np, nu, nw):
     # which: publishes/updates/withdraws ; returns (start, end) ghost texts for the loop body
-    var = {'publishes': 'pbl', 'updates': 'upd', 'withdraws': 'wdr'}[which]
+    var = {'publishes': '@LV0@', 'updates': '@LV1@', 'withdraws': '@LV2@'}[which]
     lem = {'publishes': 'lemma_pi', 'updates': 'lemma_ui', 'withdraws': 'lemma_wi'}[which]
     start = f"""let ghost m0 = self.0@; let ghost i0 = vx_it.index@ as int;
             proof {{ {lem}(elements, i0); assert({var} == elements.{which}@[i0]); }}"""
